@@ -79,13 +79,54 @@ def install(E):
                 Xv, Yv = bv(x, 8), bv(y, 8)
                 res = z3.If(Xv == Yv, bv(res, 32), z3.If(z3.ULT(Xv, Yv), BVV(0xFFFFFFFF, 32), BVV(1, 32)))
         return res
+    @reg('memchr')
+    def _memchr(E, st, fr, a, d):
+        ptr = P_(E, st, a[0]); c = conc(E, st, a[1], 'memchr byte') & 0xFF; n = conc(E, st, a[2], 'memchr length', 16)
+        cells = E.read_bytes(st, ptr, n, 'memchr read') if n else []
+        for i, cell in enumerate(cells):
+            v = E.cell_bv(cell)
+            if type(v) is not int: v = E.concretize(st, bv(v, 8), 'memchr cell', 4)
+            if v == c: return Ptr(ptr.obj, ptr.off + i)
+        return NULL
     @reg('strlen')
     def _strlen(E, st, fr, a, d):
         return len(E.cstring(st, P_(E, st, a[0])))
+    def sym_strcmp(E, st, pa, pb, limit=None):
+        """byte-wise comparison; symbolic bytes fork on equal / different (and on NUL)"""
+        oa = E.obj_of(st, pa, 'string read'); ob = E.obj_of(st, pb, 'string read')
+        ia, ib = pa.off, pb.off
+        if type(ia) is not int: ia = E.concretize(st, ia, 'string pointer offset', 64)
+        if type(ib) is not int: ib = E.concretize(st, ib, 'string pointer offset', 64)
+        k = 0
+        while limit is None or k < limit:
+            if ia + k >= oa.size or ib + k >= ob.size or ia + k < 0 or ib + k < 0:
+                raise Violation('out-of-bounds', 'string comparison reads past the end of an object (unterminated string)', E.model_dict(st))
+            x = E.cell_bv(oa.data[ia + k]) if oa.arr is None else E.arr_load(oa, ia + k, 1)
+            y = E.cell_bv(ob.data[ib + k]) if ob.arr is None else E.arr_load(ob, ib + k, 1)
+            if type(x) is int and type(y) is int:
+                if x != y: return 0xFFFFFFFF if x < y else 1
+                if x == 0: return 0
+            else:
+                X, Y = bv(x, 8), bv(y, 8)
+                taken, other = E.branch(st, X == Y)
+                if other is not None:
+                    other.frames[-1].ip -= 1; E.work.append(other)       # the other side re-executes the call under its constraint
+                if not taken:
+                    return z3.If(z3.ULT(X, Y), BVV(0xFFFFFFFF, 32), BVV(1, 32))
+                # equal: NUL ends the comparison
+                if type(x) is int or type(y) is int:
+                    if (x if type(x) is int else y) == 0: return 0
+                else:
+                    t2, o2 = E.branch(st, X == 0)
+                    if o2 is not None:
+                        o2.frames[-1].ip -= 1; E.work.append(o2)
+                    if t2: return 0
+            k += 1
+            if k > 4096: raise EngineLimit('string too long')
+        return 0
     @reg('strcmp')
     def _strcmp(E, st, fr, a, d):
-        x = E.cstring(st, P_(E, st, a[0])); y = E.cstring(st, P_(E, st, a[1]))
-        return 0 if x == y else (0xFFFFFFFF if x < y else 1)
+        return sym_strcmp(E, st, P_(E, st, a[0]), P_(E, st, a[1]))
     @reg('strncmp')
     def _strncmp(E, st, fr, a, d):
         n = conc(E, st, a[2], 'strncmp n')
@@ -206,7 +247,7 @@ def install(E):
     def _io_failed(E, st, fr, a, d): return 1 if st.env.get('io_failed') else 0
     @reg('symx_check_leaks')
     def _leaks(E, st, fr, a, d):
-        leaked = [o.name for o in st.mem.values() if o.kind == 'heap']
+        leaked = E.leaked_objects(st)
         if leaked:
             raise Violation('memory-leak', 'heap objects still allocated: %s' % ', '.join(leaked[:6]), E.model_dict(st))
         return 0
